@@ -397,6 +397,11 @@ func (e *Exec) visit(fr *frame, instr ssa.Instruction) bool {
 		if m == nil {
 			e.tpanic(fr, in, "assignment to entry in nil map")
 		}
+		if e.frozen != nil {
+			if _, fz := e.ghost[fmt.Sprintf("frozenmap:%d", m.id)]; fz {
+				e.noteFrozenWrite(fr, in)
+			}
+		}
 		e.mapUpdate(m, e.get(fr, in.Key), e.get(fr, in.Value))
 	case *ssa.TypeAssert:
 		fr.env[in] = e.typeAssert(fr, in, e.get(fr, in.X).(IfaceV))
